@@ -82,6 +82,8 @@ pub struct World {
     /// If set, replies bypass the network fault model and take exactly this long.
     pub exact_reply_latency: Option<Micros>,
     pub keep_served: bool,
+    /// Do not list nodes that are silent at the moment.
+    pub omit_silent: bool,
 }
 
 /// Tagged peer address: identifies (reply sequence number, index within the reply).
@@ -137,6 +139,7 @@ impl World {
             reply_delay: 0,
             exact_reply_latency: None,
             keep_served: true,
+            omit_silent: false,
         }
     }
 
@@ -146,11 +149,17 @@ impl World {
 
     /// Indices of the `k` nodes closest to `target` (optionally excluding one node).
     pub fn closest(&self, target: &Id, k: usize, exclude: Option<usize>, v6: bool) -> Vec<usize> {
+        self.closest_at(target, k, exclude, v6, None)
+    }
+
+    /// Like `closest`; with `now` given and `omit_silent` set, nodes silent at `now` are left out.
+    pub fn closest_at(&self, target: &Id, k: usize, exclude: Option<usize>, v6: bool, now: Option<Micros>) -> Vec<usize> {
         let mut all: Vec<(Id, usize)> = self
             .nodes
             .iter()
             .enumerate()
             .filter(|(i, n)| Some(*i) != exclude && n.addr.is_ipv6() == v6)
+            .filter(|(_, n)| !(self.omit_silent && now.map(|t| n.is_silent(t)).unwrap_or(false)))
             .map(|(i, n)| (xor(&n.id, target), i))
             .collect();
         if all.len() > k {
@@ -205,7 +214,7 @@ impl World {
                     ..Default::default()
                 };
                 let list = |w: &World, target: &Id| -> Vec<(Id, SocketAddr)> {
-                    w.closest(target, w.k, if w.include_self { None } else { Some(ni) }, v6)
+                    w.closest_at(target, w.k, if w.include_self { None } else { Some(ni) }, v6, Some(now))
                         .into_iter()
                         .map(|i| (w.nodes[i].id, w.nodes[i].addr))
                         .collect()
